@@ -256,6 +256,25 @@ pub fn check_state(sim: &Sim) -> Vec<Viol> {
     if toks.windows(2).any(|w| w[0] == w[1]) {
         out.push(v("C06", "token-collision", format!("two different origins share one pool token: {:?}", snap.keys)));
     }
+    // C06 (state form): an idle entry is filed under the key of the origin it was dialled for. A
+    // connection parked under another origin's token is a mis-delivery waiting for the next request,
+    // so it is reported in the state in which it happens, not only at the hand-off.
+    world::with(|w| {
+        for (oi, o) in sim.cfg.origins.iter().enumerate() {
+            let Some(tok) = sim.token_of(snap, oi as u8) else { continue };
+            let Some(ts) = snap.tokens.iter().find(|t| t.token == tok) else { continue };
+            let want = world::origin_of(&o.parse().unwrap());
+            for e in &ts.idle {
+                if let Ok(c) = e.conn.parse::<usize>() {
+                    if let Some(cs) = w.conns.get(c) {
+                        if !cs.origin.eq_ignore_ascii_case(&want) {
+                            out.push(v("C06", "idle-under-wrong-origin", format!("idle connection c{c}, established for {}, is filed under the pool key of {want}", cs.origin)));
+                        }
+                    }
+                }
+            }
+        }
+    });
     world::with(|w| {
         for (i, c) in w.conns.iter().enumerate() {
             if !c.h2 && c.handles > 1 {
